@@ -28,6 +28,13 @@ static std::vector<Shape> make_shapes() {
     {"5d-300blocks", {8, 9, 10, 11, 26}, {2, 1, 2, 0, 1}, 40},
   };
   for (int k = 1; k <= 36; k++) S.push_back({vf::fmt("4d-66blocks-fill%02d", k), {8, 9, 10, 46}, {2, 2, 1, 0}, k});
+  // cfitsio only touches the file inside a call that moves >= 3 blocks at once (direct I/O) or evicts buffers: a knot vector of
+  // >= 1080 doubles makes that happen inside the write of KNOTSn itself - in the first, a middle and the LAST dimension (after
+  // the last knot vector only EXTENTS and the close follow, so a status lost there is not picked up by a later KNOTSn call)
+  S.push_back({"1d-1500-long-knots", {1500}, {2}, 2});
+  S.push_back({"2d-6x1200-long-last-knots", {6, 1200}, {2, 1}, 0});
+  S.push_back({"2d-1200x6-long-first-knots", {1200, 6}, {1, 2}, 0});
+  S.push_back({"3d-5x1200x4-long-middle-knots", {5, 1200, 4}, {1, 2, 0}, 1});
   return S;
 }
 static const std::vector<Shape> SHAPES = make_shapes();
@@ -241,7 +248,7 @@ int main(int argc, char** argv) {
   vf::Harness h("C08", argc, argv);
   H = &h;
   h.meta("level", "fault_enumeration");
-  h.meta("rule", "history = the driver-operation log of the real write_fits on an in-memory cfitsio driver for six table shapes (6..300 FITS blocks, 1..5 dimensions, 0..40 aux keys; the large ones exceed cfitsio's 40-buffer pool); faults: for EVERY operation index x {immediate error, deferred error surfacing at the next flush/close, short write of 0 / 1 / 2879 / n-1 bytes} (C++ and C entry); crash points: EVERY prefix of the log at operation granularity, and torn final writes at every byte (small files) or every 512-byte sector edge +-1 and every card edge (large files), each image loaded through read_fits_mem and through a real file with read_fits; conformance: virtual image == real file == memory file, directory targets, RLIMIT_FSIZE steps in a forked child; distinct = (shape, fault kind, operation kind / file region, outcome)");
+  h.meta("rule", "history = the driver-operation log of the real write_fits on an in-memory cfitsio driver for six table shapes (6..300 FITS blocks, 1..5 dimensions, 0..40 aux keys; the large ones exceed cfitsio's 40-buffer pool; 36 header-fill shapes; four shapes whose first / middle / last knot vector is long enough (>= 1080 knots) for file I/O to happen inside the KNOTSn write itself); faults: for EVERY operation index x {immediate error, deferred error surfacing at the next flush/close, short write of 0 / 1 / 2879 / n-1 bytes} (C++ and C entry); crash points: EVERY prefix of the log at operation granularity, and torn final writes at every byte (small files) or every 512-byte sector edge +-1 and every card edge (large files), each image loaded through read_fits_mem and through a real file with read_fits; conformance: virtual image == real file == memory file, directory targets, RLIMIT_FSIZE steps in a forked child; distinct = (shape, fault kind, operation kind / file region, outcome)");
   h.meta("assumption", "seek failures are not injected: the property lists space, size-limit, write and close errors, and cfitsio itself drops the status of a failed seek");
   h.meta("assumption", "single fault per write (pairs are not enumerated); unwritten gaps read as zeros (POSIX sparse file semantics)");
   h.meta("assumption", "tables whose read failed are not destructed here (that is C07/C20's subject)");
